@@ -816,11 +816,23 @@ def _mutable_kind(x):
     return None
 
 
+SHAPES = {}  # op -> argument shape; filled once from a forked child (argument factories may call the library: the parent and the workers stay pristine)
+TWINNABLE = {}  # (op, twin kind) -> bool, same
+
+
 def _arg_shape(name):
+    if name in SHAPES:
+        return SHAPES[name]
     try:
         return tuple(_mutable_kind(x) for x in OPS[name][0]())
     except Exception:  # noqa: BLE001
         return ()
+
+
+def _load_shapes(names):
+    if not SHAPES:
+        SHAPES.update(run_isolated_value(lambda ns: {n: _arg_shape(n) for n in ns}, names))
+        TWINNABLE.update(run_isolated_value(lambda ns: {(n, k): _twin_args(n, k) is not None for n in ns for k in TWIN_KINDS}, names))
 
 
 def _digest_call(call, args):
@@ -884,6 +896,64 @@ def _reuse_cross(pair):
         else:
             a[i] = v
     return _digest_call(OPS[y][1], a)
+
+
+TWIN_KINDS = ("same_octets_other_bit_order", "same_bits_other_storage")
+
+
+def _twin(x, kind):
+    """a bitarray that a careless cache key confuses with `x`: the same storage octets read in the other bit order (another bit string
+    with the same tobytes()), or the same bit string in the other storage order (another tobytes() with the same to01())"""
+    k = _mutable_kind(x)
+    if not (k and k.startswith("bitarray")) or len(x) == 0:
+        return None
+    other = "little" if k.endswith("big") else "big"
+    if kind == "same_octets_other_bit_order":
+        t = bitarray(endian=other)
+        t.frombytes(x.tobytes())
+        del t[len(x):]
+        return t
+    return bitarray(x.to01(), endian=other)
+
+
+def _twin_args(name, kind):
+    args = list(OPS[name][0]())
+    hit = False
+    for i, v in enumerate(args):
+        t = _twin(v, kind)
+        if t is not None and (t != v or kind == "same_bits_other_storage"):
+            args[i] = t
+            hit = True
+    return args if hit else None
+
+
+def _twin_history(task):
+    """order: 'T' twin alone, 'XT' op then twin, 'TX' twin then op, 'TT' twin twice -> digest of the last call"""
+    name, kind, order = task
+    call = OPS[name][1]
+    out = None
+    for step in order:
+        args = _twin_args(name, kind) if step == "T" else list(OPS[name][0]())
+        out = _digest_call(call, args)
+    return out
+
+
+def w_twins_from(name):
+    acc = Acc()
+    for kind in TWIN_KINDS:
+        if not TWINNABLE.get((name, kind)):
+            continue
+        alone = run_isolated_value(_twin_history, (name, kind, "T"))
+        for order, last_alone, what in (("XT", alone, "the twin after the op"), ("TX", FRESH[name], "the op after its twin"), ("TT", alone, "the twin twice")):
+            g = run_isolated_value(_twin_history, (name, kind, order))
+            case = {"op": name, "twin": kind, "sequence": order, "meaning": what}
+            if isinstance(g, str) or isinstance(alone, str):
+                acc.violation("child_crashed", {**case, "detail": str(g)[:200]})
+            elif g[0] != last_alone[0]:
+                acc.violation(f"result_depends_on_an_earlier_call_with_a_storage_twin:{name}", {**case, "alone": last_alone[1], "in_history": g[1]},
+                              f"{name}: the call gives another result after the same call on a bitarray with {kind.replace('_', ' ')} than it gives alone")
+            acc.case(nontrivial=True, calls=len(order), outcome=kind + ":" + order, sample=case if len(acc.samples) < 1 else None)
+    return acc
 
 
 def w_reuse_from(first):
@@ -1071,6 +1141,7 @@ def run(only=None):
         s.done()
     # ---- the caller re-uses its argument buffers ---------------------------------------------------------------
     if not only or "argument_buffers_reused_by_the_caller" in only:
+        _load_shapes(names)
         reus = [n for n in names if any(_arg_shape(n))]
         s = rep.sub("argument_buffers_reused_by_the_caller",
                     f"the {len(reus)} ops that take a bitarray / bytearray / list / numpy array: (a) the op, the caller changes one bit / element of the SAME argument "
@@ -1080,6 +1151,18 @@ def run(only=None):
         for acc in par.pmap(w_reuse_from, reus):
             s.merge(acc)
         s.extra["ops_with_mutable_arguments"] = len(reus)
+        s.done()
+    # ---- storage twins of the arguments -----------------------------------------------------------------------
+    if not only or "storage_twins_of_the_arguments" in only:
+        _load_shapes(names)
+        tw = [n for n in names if any(TWINNABLE.get((n, k)) for k in TWIN_KINDS)]
+        s = rep.sub("storage_twins_of_the_arguments",
+                    f"the {len(tw)} ops that take a bitarray: the op and its storage twins (the same storage octets in the other bit order = another bit string with the "
+                    "same tobytes(); the same bit string in the other storage order = another tobytes() with the same to01()) in the orders op-twin, twin-op, "
+                    "twin-twin, each history in its own forked child: the last call gives what it gives alone in a forked child of the pristine parent")
+        for acc in par.pmap(w_twins_from, tw):
+            s.merge(acc)
+        s.extra["ops_with_bitarray_arguments"] = len(tw)
         s.done()
     # ---- triples over shared-state ops -------------------------------------------------------------------
     if not only or "shared_state_triples" in only:
